@@ -104,6 +104,8 @@ func Run(c *vh.Ctx) {
 			r.runCycle()
 		case "share":
 			r.runShare(shareByName(cs.Mut, cs.Src))
+		case "x":
+			r.runX(cs)
 		default:
 			r.runCase(cs, true)
 		}
@@ -121,6 +123,15 @@ func Run(c *vh.Ctx) {
 
 	c.Res.Rule = "triples: every (array shape x aliasing route x mutation x written side) of the catalogue (10 shapes: list, permuted list, empty, string-keyed, mixed, sparse, nested to depth 2 and 3, nested under string keys; 13 routes: assignment, by-value parameter with the write inside the callee, function return, getter, property read, property store, setter, element store, element append, array-literal item, element read, foreach value, clone; 23 mutations: int/sparse/string/array store, append, unset, push/pop/shift/unshift/sort as method and as array_* function, and their nested forms one and two levels down); seeded programs of 4-14 statements over 4 variables, 2 object properties, with explicit references and handle copies; keyed-literal (ObjectValue) triples; non-trivial = at least 3 statements; distinct = distinct statement list"
 
+	if f := os.Getenv("C06_PRELUDE_OUT"); f != "" { // development: the prelude, to replay a case on the CLI
+		os.WriteFile(f, []byte("<?php\n"+classPrelude+xPrelude()), 0o644)
+		return
+	}
+	if os.Getenv("C06_ONLY") == "x" { // development: the composite-route stream alone
+		n := r.xEnumerate(c.Thorough())
+		c.Note("composite only: %d cases", n)
+		return
+	}
 	// ---- 0. committed corpus and the Lean witnesses first
 	for _, dir := range []string{"/verif/corpus/C06"} {
 		ents, err := os.ReadDir(dir)
@@ -194,8 +205,12 @@ func Run(c *vh.Ctx) {
 		r.runShare(sc)
 	}
 	r.runCycle()
+	nX := r.xEnumerate(c.Thorough())
+	if tooManyCrashes() {
+		return
+	}
 	c.Res.Exhaustive = true
-	c.Res.ExhaustiveWhat = fmt.Sprintf("all %d applicable (shape x route x mutation x side) triples of the catalogue against model and oracle; all %d keyed-literal triples against the oracle; %d intended-sharing expectations", nTriples, nKV, len(shareCases))
+	c.Res.ExhaustiveWhat = fmt.Sprintf("all %d applicable (shape x route x mutation x side) triples of the catalogue against model and oracle; all %d keyed-literal triples against the oracle; %d intended-sharing expectations; %d composite-route cases (owner x producer expression x by-value sink x mutation x shape) against the oracle", nTriples, nKV, len(shareCases), nX)
 
 	// ---- 2. seeded programs, writes at depth 1 only (the discipline of the _partial theorem)
 	g := &gen{r: c.Rand, nv: 4}
@@ -275,6 +290,10 @@ func resolve(cs *Case) *Case {
 	switch cs.Kind {
 	case "triple-ref": // {"kind":"triple-ref","shape":..,"route":..,"mut":..,"side":..}
 		if t := tripleByNames(cs.Shape, cs.Route, cs.Mut, cs.Side); t != nil {
+			return t
+		}
+	case "x-ref": // {"kind":"x-ref","shape":..,"route":<producer>,"side":<sink>,"mut":..}
+		if t := xByNames(cs.Scope, cs.Shape, cs.Route, cs.Side, cs.Mut); t != nil {
 			return t
 		}
 	case "kv-ref":
